@@ -22,6 +22,7 @@ func runC03(c *vlib.Check) {
 		"intervals restricted to [0,2^32) s and dates to whole seconds, as the property states"}
 	var trees []*enum.N
 	enum.Trees(c.Thorough(), func(n *enum.N) { trees = append(trees, n) })
+	enum.BigTrees(func(n *enum.N) { trees = append(trees, n) })
 	vlib.Parallel(len(trees), 0, func(i int) { c03One(c, trees[i], i) })
 	c.Exhaustive = true
 }
